@@ -154,6 +154,9 @@ TABLE.update({
     "c09_user_position_as_hint_only.diff": ("box", "contracts.c09:fixed_positions:fixed_positions_arg_sets", None),
     "c09_user_position_treated_as_centre.diff": ("box", "contracts.c09:fixed_positions:fixed_positions_arg_sets", None),
     "c09_coordinate_constant_not_used.diff": ("contracts.c09", "_extract_coordinate", None),
+    "c10_map_skips_condition_rows.diff": ("box", "contracts.c10:map_operands:map_operands_arg_sets", None),
+    "c10_map_skips_latch_reset.diff": ("box", "contracts.c10:map_operands:map_operands_arg_sets", None),
+    "c10_update_value_loses_type.diff": ("contracts.c10", "ConstantPropagationOptimizer._update_value", None),
     "c04_self_feedback_on_green.diff": ("box", "contracts.c04:self_feedback:self_feedback_arg_sets", None),
     "c04_cleanup_keeps_wires_of_removed_gate.diff": ("box", "contracts.c04:cleanup_gates:cleanup_arg_sets", None),
     "../seeded/C04-1/patch.diff": ("box", "contracts.c04:optimize_feedback:feedback_arg_sets", None),
